@@ -27,3 +27,18 @@ CHECKS["C04"] = {
         {"pkg": MUX, "run": "^TestVerif_C04_Random$", "checks": {"quick": 3000, "thorough": 400000}, "shards": {"thorough": 16}},
     ],
 }
+
+CHECKS["C02"] = {
+    "level": "exploration",
+    "exhaustive_claim": True,
+    "technique": "exhaustive enumeration of arrival permutations x reader schedules for small n + rapid sampling for large n / extreme sequence numbers; reference-model oracle",
+    "level_text": "All n! arrival orders for n<=6 frames (n<=8 in thorough) x closing frame absent/last x all 2^n reader-drain schedules are executed against the in-package stream buffer and compared with a sequence-order model after every arrival; larger n, big payloads and sequence numbers around 2^32/2^63/2^64 are sampled.",
+    "level_note": "White-box use of streamBuffer.nextRecvSeq (to reach high sequence numbers) and of the pipe's buffered length (to drain without blocking). Frames are delivered exactly once, the closing frame has the highest number (what a sender produces).",
+    "rule": "Exhaustive: every permutation of n<=6 (thorough 8) frames, closing frame absent or numbered last, every subset of arrivals after which the reader drains; the receive buffer is reused and overwritten between arrivals. "
+            "Sampled: rapid-drawn n<=200, order kinds random/reverse/nearly-sorted/rotate, sizes 1..40000, base seq in {0,2^32-n/2,2^63-n/2,2^64-n,...}. Non-trivial = arrival order differs from sequence order; distinct = distinct permutations (exhaustive) / distinct scenarios (sampled).",
+    "assumptions": ["each frame is delivered exactly once", "the stream-closing frame carries the highest sequence number of its stream"],
+    "jobs": [
+        {"pkg": MUX, "run": "^TestVerif_C02_Exhaustive$"},
+        {"pkg": MUX, "run": "^TestVerif_C02_Sampled$", "checks": {"quick": 5000, "thorough": 1000000}, "shards": {"thorough": 16}},
+    ],
+}
